@@ -80,6 +80,9 @@ pub(crate) fn dial(host: &Host<&str>, port: u16, info: &ConnectInfo) -> crate::R
 
 /// Receives the announcements of every thread it is installed on.
 pub trait Controller: Send + Sync {
+    /// The current thread is about to spawn a library thread (which will announce itself with
+    /// `thread_start` once it runs).
+    fn spawning(&self) {}
     /// A thread created by the library starts running, `label` says which kind.
     fn thread_start(&self, label: &'static str);
     /// The thread is at the named point; the call returns when it may go on.
@@ -105,7 +108,11 @@ pub fn sched_point(label: &'static str, detail: i64) {
 pub struct Inherited(Option<Arc<dyn Controller>>);
 
 pub fn inherit() -> Inherited {
-    Inherited(CONTROLLER.with(|c| c.borrow().clone()))
+    let controller = CONTROLLER.with(|c| c.borrow().clone());
+    if let Some(controller) = &controller {
+        controller.spawning();
+    }
+    Inherited(controller)
 }
 
 pub struct ThreadGuard(Option<Arc<dyn Controller>>, &'static str);
